@@ -1317,6 +1317,7 @@ impl<'a> ReservedSession<'a> {
     /// `Sessions::remove_for_fabric` does not spare reserved slots. A handshake that
     /// finds its slot gone must not leave anything else behind for that fabric either
     /// (e.g. a session resumption record).
+    #[cfg(feature = "case-resumption")]
     pub(crate) fn is_in_table(&self, state: &mut MatterState) -> bool {
         state.sessions.get(self.id).is_some()
     }
